@@ -314,6 +314,28 @@ def check_ref_channel(run, A):
             and is_call_to(den, 'numpy.maximum')
     run.check(ok, 'R-ROLE', 'get_optimal_reference_channel: SNR = w^H Phi_xx w / max(w^H Phi_nn w, eps)', fn.loc(), '',
               'the SNR ratio does not have the target PSD in the numerator and the floored noise PSD in the denominator', construct=f'R-ROLE::{q}::snr-roles')
+    # ... and the floor is positive when the caller does not give one: every alternative of the floor that is a parameter taken as it is has a positive (or None-resolved) default
+    if ok:
+        den = div[0].args[2]
+        n_, pos_, kw_ = call_parts(strip_views(den))
+        floors = [x for x in pos_ if not derives(x, 'noise_psd_matrix')]
+        for fl in floors:
+            for alt in unwrap_gamma(fl):
+                alt = strip_views(alt)
+                if alt.op == 'param':
+                    names = [a.arg for a in fn.node.args.posonlyargs + fn.node.args.args]
+                    dflt = None
+                    if alt.args[0] in names:
+                        k_ = names.index(alt.args[0]) - (len(names) - len(fn.node.args.defaults))
+                        dflt = fn.node.args.defaults[k_] if k_ >= 0 else None
+                    elif alt.args[0] in [a.arg for a in fn.node.args.kwonlyargs]:
+                        dflt = fn.node.args.kw_defaults[[a.arg for a in fn.node.args.kwonlyargs].index(alt.args[0])]
+                    import ast as _ast
+                    if isinstance(dflt, _ast.Constant) and isinstance(dflt.value, (int, float)) and not isinstance(dflt.value, bool):
+                        run.check(dflt.value > 0, 'R-ROLE', 'get_optimal_reference_channel: the default floor of the noise power is positive', fn.loc(getattr(fl, 'node', None)), '',
+                                  f'the floor `{alt.args[0]}` defaults to {dflt.value!r} and is used as it is: with zero output noise power in every bin the SNR is 0 / 0 and the '
+                                  f'helpers that do not pass their own floor (get_wmwf_vector) fail where the primitive with an explicit reference channel works',
+                                  construct=f'R-ROLE::{q}::default-floor')
     for s in sites:
         info = ein.operand_info(s)
         st = ein.structure(s)
